@@ -102,8 +102,15 @@ class Ref:
             return self.regE((l.xs[0] if k == "front" else l.xs[-1]) if l.xs else l.root)
         if k in ("next", "prev"):
             e = self.E(a[0])
-            if e is None or e.owner is None:
+            if e is None:
                 raise Unspecified()
+            if e.owner is None:
+                # an element that was never in a list has nil links ("always non-nil, *unless* the element
+                # is not a member of a list"): the handle that comes back is nil. A popped or removed
+                # element keeps its old links: not specified.
+                if getattr(e, "stale", False) or e.is_root or not e.ok:
+                    raise Unspecified()
+                return self.regE(None)
             l = e.owner
             if e.is_root:
                 return self.regE((l.xs[0] if k == "next" else l.xs[-1]) if l.xs else l.root)
@@ -281,7 +288,8 @@ class Ref:
         ep = []
         for e in self.elems:
             if e is None:
-                ep.append("nil"); continue
+                # Element.In: "Returns false when the element is nil"
+                ep.append("nil/" + "0" * len(self.lists)); continue
             ins = "".join("1" if e.owner is l else "0" for l in self.lists)
             ep.append(f"{int(e.ok)}{e.val}/{ins}")
         ip = []
